@@ -105,6 +105,10 @@ TKok = F("TKok", Val, Opt, B)
 TKset = F("TKset", Val, Opt, KSet)
 TKexc = F("TKexc", Val, Opt, Exc)
 TXset = F("TXset", Val, Opt, KSet)      # explain variant (never raises)
+str_bad = F("str_bad", Val, Opt, Key)       # skolem: a referenced key that breaks resolve of a string
+rd_via = F("rd_via", Val, Opt, Key, Key)    # skolem: the referenced key through which k is read
+cont_bad = F("cont_bad", Val, Opt, I)       # skolem: an element that breaks resolve of a container
+rd_idx = F("rd_idx", Val, Opt, Key, I)      # skolem: the element that reads k
 
 # --------------------------------------------------------------------------- interface spec functions
 EVok = F("EVok", Ev, Opt, B)
@@ -528,7 +532,7 @@ def tk_contract_axioms():
         # TK2 stability under restriction
         z3.ForAll([v, o, o2], z3.Implies(z3.And(TKok(v, o), sub(o2, o), agreeP(o, o2, TKset(v, o))),
                                          z3.And(TKok(v, o2), TKset(v, o2) == TKset(v, o), TXset(v, o2) == TXset(v, o))),
-                  patterns=[z3.MultiPattern(TKok(v, o), sub(o2, o), TKok(v, o2))]),
+                  patterns=[z3.MultiPattern(TKok(v, o), sub(o2, o), TKok(v, o2)), z3.MultiPattern(TKok(v, o), sub(o2, o), TXset(v, o2))]),
         # TK3 failure: a missing-key error naming an absent key; then the substitution fails as well
         z3.ForAll([v, o], z3.Implies(z3.Not(TKok(v, o)), z3.And(is_cls["KeyNotFoundError"](x), missing(x), z3.Not(has(o, mkey(x))),
                                                                 z3.IsMember(mkey(x), TXset(v, o)), z3.Not(resolve_ok(v, o)))),
@@ -546,6 +550,53 @@ def tk_contract_axioms():
                   patterns=[z3.MultiPattern(z3.IsMember(k, TXset(v, o)), has(o, k))]),
         # TK4: when every (transitively) referenced key can be looked up the substitution succeeds
         z3.ForAll([v, o], z3.Implies(TKok(v, o), resolve_ok(v, o)), patterns=[TKok(v, o)]),
+    ]
+
+
+assume("OptTheory.resolve.structure", "structure of confectioner.resolve (bounded-validated): for a string v without ':name:' placeholders resolve(v,o) succeeds iff every "
+       "referenced key can be looked up and its value resolves, and reads exactly those keys plus what their values read; for a list/dict it resolves every element")
+
+
+def resolve_structure_axioms():
+    v = z3.Const("v!s", Val)
+    o = z3.Const("o!s", Opt)
+    k = z3.Const("k!s", Key)
+    i = z3.Const("i!s", I)
+    cont = z3.Or(isdict(v), islist(v))
+    return [
+        # strings
+        z3.ForAll([v, o, k], z3.Implies(z3.And(isstr(v), resolve_ok(v, o), z3.IsMember(k, tkeys(v))),
+                                        z3.And(has(o, k), resolve_ok(get(o, k), o), z3.IsMember(k, RD(v, o)), subsetP(RD(get(o, k), o), RD(v, o)))),
+                  patterns=[z3.MultiPattern(resolve_ok(v, o), z3.IsMember(k, tkeys(v)))]),
+        z3.ForAll([v, o], z3.Implies(z3.And(isstr(v), z3.Not(resolve_ok(v, o))),
+                                     z3.And(z3.IsMember(str_bad(v, o), tkeys(v)),
+                                            z3.Or(z3.Not(has(o, str_bad(v, o))), z3.Not(resolve_ok(get(o, str_bad(v, o)), o))))),
+                  patterns=[z3.MultiPattern(isstr(v), resolve_ok(v, o))]),
+        z3.ForAll([v, o, k], z3.Implies(z3.And(isstr(v), resolve_ok(v, o), z3.IsMember(k, RD(v, o))),
+                                        z3.Or(z3.IsMember(k, tkeys(v)), z3.And(z3.IsMember(rd_via(v, o, k), tkeys(v)), z3.IsMember(k, RD(get(o, rd_via(v, o, k)), o))))),
+                  patterns=[z3.MultiPattern(isstr(v), z3.IsMember(k, RD(v, o)))]),
+        # which key a KeyError of the substitution names: the failing reference itself, or what its value's substitution names
+        z3.ForAll([v, o], z3.Implies(z3.And(isstr(v), z3.Not(resolve_ok(v, o)), is_cls["KeyError"](resolve_exc(v, o))),
+                                     z3.Or(z3.And(z3.Not(has(o, str_bad(v, o))), exc_key(resolve_exc(v, o)) == str_bad(v, o)),
+                                           z3.And(has(o, str_bad(v, o)), z3.Not(resolve_ok(get(o, str_bad(v, o)), o)),
+                                                  is_cls["KeyError"](resolve_exc(get(o, str_bad(v, o)), o)),
+                                                  exc_key(resolve_exc(v, o)) == exc_key(resolve_exc(get(o, str_bad(v, o)), o))))),
+                  patterns=[resolve_exc(v, o)]),
+        z3.ForAll([v, o], z3.Implies(z3.And(cont, z3.Not(resolve_ok(v, o)), is_cls["KeyError"](resolve_exc(v, o))),
+                                     z3.And(is_cls["KeyError"](resolve_exc(vchild(v, cont_bad(v, o)), o)),
+                                            exc_key(resolve_exc(v, o)) == exc_key(resolve_exc(vchild(v, cont_bad(v, o)), o)))),
+                  patterns=[resolve_exc(v, o)]),
+        # containers
+        z3.ForAll([v], vnchild(v) >= 0, patterns=[vnchild(v)]),
+        z3.ForAll([v, o, i], z3.Implies(z3.And(cont, resolve_ok(v, o), i >= 0, i < vnchild(v)),
+                                        z3.And(resolve_ok(vchild(v, i), o), subsetP(RD(vchild(v, i), o), RD(v, o)))),
+                  patterns=[z3.MultiPattern(resolve_ok(v, o), vchild(v, i))]),
+        z3.ForAll([v, o], z3.Implies(z3.And(cont, z3.Not(resolve_ok(v, o))),
+                                     z3.And(cont_bad(v, o) >= 0, cont_bad(v, o) < vnchild(v), z3.Not(resolve_ok(vchild(v, cont_bad(v, o)), o)))),
+                  patterns=[z3.MultiPattern(vnchild(v), resolve_ok(v, o))]),
+        z3.ForAll([v, o, k], z3.Implies(z3.And(cont, resolve_ok(v, o), z3.IsMember(k, RD(v, o))),
+                                        z3.And(rd_idx(v, o, k) >= 0, rd_idx(v, o, k) < vnchild(v), z3.IsMember(k, RD(vchild(v, rd_idx(v, o, k)), o)))),
+                  patterns=[z3.MultiPattern(vnchild(v), z3.IsMember(k, RD(v, o)))]),
     ]
 
 
